@@ -86,9 +86,13 @@ def build_config(entrypoint, include_none=False):
 
     config = {}
     configurable = entrypoint_configurables[entrypoint]
+    # Defaults of all classes first, so that the default of a more specific
+    # class cannot shadow a value given in a less specific section:
     for c in reversed(configurable.mro()):
         if issubclass(c, NbdimeConfigurable):
             recursive_update(config, config_instance(c).configured_traits(c), include_none)
+    for c in reversed(configurable.mro()):
+        if issubclass(c, NbdimeConfigurable):
             if (c.__name__ in disk_config):
                 recursive_update(config, disk_config[c.__name__], include_none)
 
